@@ -82,17 +82,15 @@ Ltac use_eq H := rewrite ?H; repeat match goal with
   | |- context [?a =? ?b] => let c := eval vm_compute in (a =? b) in change (a =? b) with c
   end.
 
-Lemma spells_balanced q :
-  (forall inf ts t (s : spells q inf ts t), balanced ts) /\
-  (forall ats args (s : spells_args q ats args), balanced_args ats).
+Lemma spells_balanced :
+  (forall inf ts t (s : spells inf ts t), balanced ts) /\
+  (forall ats args (s : spells_args ats args), balanced_args ats).
 Proof.
-  apply (spells_both_ind q (fun _ ts _ _ => balanced ts) (fun ats _ _ => balanced_args ats)).
+  apply (spells_both_ind (fun _ ts _ _ => balanced ts) (fun ats _ _ => balanced_args ats)).
   - intros inf k e Hv. pose proof (pview_tok k) as T. rewrite Hv in T. destruct T as [T1 [T2 [T3 T4]]].
     cnt_simpl. rewrite T1, T2, T3, T4. auto.
   - intros inf ko pG pS ts t kc Hv Ht [B1 B2] Hl Hkc. pose proof (pview_tok ko) as T. rewrite Hv in T.
     cnt_simpl. rewrite T, Hkc. cbn. lia.
-  - intros inf ko pG pS ts t km kc Hq Hv Ht [B1 B2] Hl Hkm Hkc. pose proof (pview_tok ko) as T. rewrite Hv in T.
-    cnt_simpl. rewrite T, Hkm, Hkc. cbn. lia.
   - intros inf k pG pO pS pN ts x Hv Hx [B1 B2] Hl. pose proof (pview_tok k) as T. rewrite Hv in T. destruct T as [T1 [T2 [T3 T4]]].
     cnt_simpl. rewrite T1, T2, T3, T4. cbn. lia.
   - intros inf k pL pR pO pN xs x Hv Hlt Hx [B1 B2] Hl. pose proof (sview_tok inf (ty k)) as T. rewrite Hv in T.
